@@ -2,6 +2,7 @@ import St4sd.Model.Repl
 import St4sd.Model.ReplVars
 import St4sd.Model.ReplConf
 import St4sd.Lemmas.C03Text
+import St4sd.Lemmas.C03Agg
 import St4sd.Model.ReplOver
 import St4sd.Lemmas.C03Over
 /-!
@@ -37,6 +38,10 @@ topological order, by induction over that order (`go_inv`).
   `override.<platform>` block of every emitted component is rewritten consistently with the component, so what
   is read back through the platform layer (references, command line, every variable, `replica = i`) is exactly
   the rewritten component;
+* `aggregated_path_ends_where_the_path_ends`, `aggregated_reference_then_text`, `aggregated_path_expansion` — the
+  aggregator's text (`compile_component_aggregate`): the file path that follows an aggregated reference is exactly
+  the run of `/segment`s over `[\w.*]`; whatever comes next (`)` `;` `|` `>` … of the surrounding shell text) is
+  neither taken into the path nor repeated after every copy, it is scanned as text on its own;
 * `text_refines_graph_partial` — for the repaired code the textual rewriting of a `references` entry of a
   copy equals the rendering of the graph-level rewriting, under two decidable side conditions (see there).
 -/
@@ -741,6 +746,50 @@ example : (String.ofList (replicaText dEx cEx 1 (render rA)), String.ofList (rep
 /-- the aggregator's strings: copies in index order, paths repeated, foreign tokens untouched -/
 example : String.ofList (aggText dEx { cEx with agg := true } 2 "A:ref/x.txt BA:ref data/A:ref".toList) =
     "stage0.A0:ref/x.txt stage0.A1:ref/x.txt BA:ref data/A:ref" := by decide
+
+/-! ## the aggregator's text: the file path after an aggregated reference ends where the path ends -/
+
+/-- `(?:/[\w.*]+)+` read at the head of `path ++ tail`, where `path` is `/seg/seg…` (segments = non-empty runs of
+`[\w.*]`) and `tail` is empty or starts with a character that is neither `[\w.*]` nor `/`: exactly `path` is
+matched, however long `tail` is and whatever it contains. -/
+theorem aggregated_path_ends_where_the_path_ends (segs : List S) (hs : goodSegs segs) (tail : S)
+    (ht : tail = [] ∨ ∃ c r, tail = c :: r ∧ endsPath c = true) :
+    pathLen (pathOf segs ++ tail).length (pathOf segs ++ tail) = (pathOf segs).length :=
+  pathLen_stops segs hs tail ht _ (by
+    have := pathOf_length_ge segs
+    simp only [List.length_append]; omega)
+
+/-- the replacement of one aggregated reference followed by `path` and then by other text: the copies in the given
+(index) order, each with exactly `path`; the number of characters consumed after the reference is the length of
+`path` — nothing of `tail`. -/
+theorem aggregated_path_expansion (reps : List S) (segs : List S) (hs : goodSegs segs) (tail : S)
+    (ht : plainTail tail) :
+    aggExpand reps (pathOf segs ++ tail) = (join [' '] (reps.map (· ++ pathOf segs)), (pathOf segs).length) :=
+  aggExpand_stops reps segs hs tail ht
+
+/-- for every string `k ++ path ++ tail` in which the aggregated reference `k` matches: the result is the copies
+with `path`, followed by the result of scanning `tail` on its own (so a `)` `;` `|` `>` glued to the path stays
+where the user wrote it, once). -/
+theorem aggregated_reference_then_text (keys : List (S × List S)) (prev : Option Char) (k : S) (reps : List S)
+    (segs : List S) (tail : S) (hk : k ≠ []) (hl : leftOk prev = true)
+    (hm : firstMatchAgg keys (k ++ pathOf segs ++ tail) = some (k, reps))
+    (hs : goodSegs segs) (ht : plainTail tail) :
+    aggScan keys 0 prev (k ++ pathOf segs ++ tail) =
+      join [' '] (reps.map (· ++ pathOf segs)) ++ aggScan keys 0 ((k ++ pathOf segs).getLast?) tail :=
+  aggScan_reference_then_text keys prev k reps segs tail hk hl hm hs ht
+
+/-- the hypotheses are satisfiable by a non-trivial input: `$(cat A:ref/out/e.csv); sort` -/
+example : goodSegs ["out".toList, "e.csv".toList] ∧ plainTail "); sort".toList ∧
+    firstMatchAgg [("A:ref".toList, ["stage0.A0:ref".toList, "stage0.A1:ref".toList])]
+      ("A:ref".toList ++ pathOf ["out".toList, "e.csv".toList] ++ "); sort".toList) =
+      some ("A:ref".toList, ["stage0.A0:ref".toList, "stage0.A1:ref".toList]) :=
+  ⟨by unfold goodSegs; decide, Or.inr ⟨')', "; sort".toList, rfl, by decide, by decide⟩, by decide⟩
+
+/-- … and the whole command line of the aggregator is what the user wrote with the N copies in place -/
+example : String.ofList (aggText dEx { cEx with agg := true } 2
+      "$(cat A:ref/o/e.csv); ls A:ref| wc >BA:ref/o".toList) =
+    "$(cat stage0.A0:ref/o/e.csv stage0.A1:ref/o/e.csv); ls stage0.A0:ref stage0.A1:ref| wc >BA:ref/o" := by
+  decide +kernel
 
 /-! ## every copy knows its own replica index -/
 
